@@ -31,10 +31,19 @@ def hasSub (needle : Bytes) : Bytes → Bool
   | [] => needle.isEmpty
   | b :: rest => needle.isPrefixOf (b :: rest) || hasSub needle rest
 
+/-- protocol numbers that the common view projects out of V9 / IPFIX data records (a numeric field 4; a `ProtocolType`-typed
+    value is refused by the converter and falls under `common-kind-rejected`) -/
+def projectedProtos (c : Config) (pkts : List Packet) : List Nat :=
+  pkts.flatMap fun p =>
+    match p with
+    | .v9 _ ss => (v9DataRecs ss).filterMap fun r => (Preds.firstField r c.t.commonV9.proto).bind (Preds.protoNumOf c.t)
+    | .ipfix _ ss => (Preds.regroup (ipDataRecs ss) []).filterMap fun r => (Preds.firstField r c.t.commonIp.proto).bind (Preds.protoNumOf c.t)
+    | _ => []
+
 /-- classes visible in what was decoded -/
 def outputClasses (c : Config) (pkts : List Packet) : List String :=
   let vals := recValues pkts
-  let protos := fixedRecs c pkts
+  let protos := fixedRecs c pkts ++ projectedProtos c pkts
   (if protos.contains 0 then ["proto-name-0"] else []) ++
   (if protos.contains 1 then ["proto-name-1"] else []) ++
   (if protos.contains 144 then ["proto-name-144"] else []) ++
